@@ -31,6 +31,7 @@ import (
 	"github.com/jdillenkofer/pithos/internal/storage"
 	"github.com/jdillenkofer/pithos/internal/storage/database"
 	repositoryfactory "github.com/jdillenkofer/pithos/internal/storage/database/repository"
+	"github.com/jdillenkofer/pithos/internal/storage/database/repository/partoutboxentry"
 	"github.com/jdillenkofer/pithos/internal/storage/database/sqlite"
 	"github.com/jdillenkofer/pithos/internal/storage/metadatapart"
 	"github.com/jdillenkofer/pithos/internal/storage/metadatapart/metadatastore"
@@ -141,6 +142,9 @@ type Spec struct {
 	// TimeScale (0 fast, 1 medium, 2 slow) is chosen by the scenario swarm; the
 	// world itself does not interpret it.
 	TimeScale int
+	// WrapPartOutboxRepo, when set, wraps the part-outbox repository handed to
+	// every outbox layer (the fence ledger of C18 observes claims/finalizes).
+	WrapPartOutboxRepo func(instance string, r partoutboxentry.Repository) partoutboxentry.Repository
 }
 
 // World is one instance of the system ("process") on a directory.
@@ -487,6 +491,9 @@ func (w *World) buildStack(name string, spec StackSpec) (partstore.PartStore, er
 			r, rerr := repositoryfactory.NewPartOutboxEntryRepository(w.DB)
 			if rerr != nil {
 				return nil, rerr
+			}
+			if w.Spec.WrapPartOutboxRepo != nil {
+				r = w.Spec.WrapPartOutboxRepo("world:"+name, r)
 			}
 			cur, err = outboxpartstore.New(w.DB, "outbox-"+name, cur, r, prometheus.NewRegistry(), l.Lease)
 		case "ec":
